@@ -259,10 +259,12 @@ class MG:
                 if rng.random() < 0.2:
                     # the same device function called again with the same VALUES bound to the other parameters by keyword
                     _, callee, pos, kws = out[-1]
-                    vals = list(pos) + [v for _, v in kws]
                     kern = next((k for v, k, _ in self.devs if v == callee), None)
+                    names = TWEEZERS[kern][2] if kern is not None else []
+                    named = dict(zip(names, pos))
+                    named.update(dict(kws))
+                    vals = [named[nm] for nm in names] if len(named) == len(names) else []     # the values in SIGNATURE order
                     if kern is not None and len(vals) >= 2 and vals[0] != vals[1]:
-                        names = TWEEZERS[kern][2]
                         first = [(names[0], vals[0]), (names[1], vals[1])] + list(zip(names[2:], vals[2:]))
                         twin = [(names[1], vals[0]), (names[0], vals[1])] + list(zip(names[2:], vals[2:]))
                         out[-1] = ("call", callee, [], first)
